@@ -250,14 +250,24 @@ func xbindingsOf(cs []xclause) []string {
 	return out
 }
 
+// allTemporal makes symDataX draw temporal predicates only (set by a harness
+// for shapes whose subject is the anchors).
+var allTemporal bool
+
 // symDataX is symData with a choice of object kinds.
-func symDataX(name string, temporal bool, okinds []int) *dspec {
+func symDataX(name string, temporal bool, okinds []int, na int) *dspec {
+	if na == 0 {
+		na = baseAnchors
+	}
 	d := &dspec{sb: verif.Byte(name + ".s"), pb: verif.Byte(name + ".p"), ob: verif.Byte(name + ".o")}
 	verif.Assume(verif.And(alphaB(d.sb), verif.And(alphaB(d.pb), alphaB(d.ob))))
 	if temporal {
-		d.pk = verif.Choice(name+".pk", 2)
+		d.pk = 1
+		if !allTemporal {
+			d.pk = verif.Choice(name+".pk", 2)
+		}
 		if d.pk == 1 {
-			d.pa = verif.Choice(name+".pa", len(anchors))
+			d.pa = verif.Choice(name+".pa", na)
 		}
 	}
 	d.ok = okinds[0]
@@ -265,7 +275,7 @@ func symDataX(name string, temporal bool, okinds []int) *dspec {
 		d.ok = okinds[verif.Choice(name+".ok", len(okinds))]
 	}
 	if d.ok == 4 {
-		d.oa = verif.Choice(name+".oa", len(anchors))
+		d.oa = verif.Choice(name+".oa", baseAnchors)
 	}
 	d.t = d.build()
 	return d
@@ -471,7 +481,7 @@ func HarnessC03Extract() {
 	K := 1 + verif.Choice("k", verif.Param("K", 2))
 	data := make([]*dspec, K)
 	for i := range data {
-		data[i] = symDataX("d", sh.temporal, sh.okinds)
+		data[i] = symDataX("d", sh.temporal, sh.okinds, 0)
 	}
 	g := noWindow
 	if len(sh.global) > 0 {
